@@ -63,8 +63,9 @@ fn build(c: &Case, n: u64) -> Vec<u8> {
     }
 }
 
-/// (batch_size, requests arriving together, server first handles a full batch of 64 valid requests)
-const MODES: [(u8, usize, bool); 5] = [(64, 1, false), (1, 1, false), (2, 2, false), (4, 4, false), (64, 1, true)];
+/// (batch_size, requests arriving together, server first handles a full batch of 64 valid requests,
+/// a valid classic request of another client shares the batch: 0 no, 1 queued first, 2 queued last)
+const MODES: [(u8, usize, bool, u8); 8] = [(64, 1, false, 0), (1, 1, false, 0), (2, 2, false, 0), (4, 4, false, 0), (64, 1, true, 0), (64, 1, false, 1), (64, 1, false, 2), (2, 1, false, 1)];
 
 /// A burst of 64 valid requests (both protocols) queued before the first step: one completely full
 /// batch of the default size. All must be answered.
@@ -167,7 +168,7 @@ pub fn run(ctx: &Ctx) -> Result<(), String> {
     // poll cycle; batch sizes 1, 2 and 4 with the requests arriving in groups that fill a batch
     // exactly (every collect ends because the batch is full); and a server that has first handled
     // a burst of 64 valid requests (one full batch of the default size).
-    for &(bs, group, primed) in MODES.iter() {
+    for &(bs, group, primed, companion) in MODES.iter() {
         par_for(shards, 1, |sh, _| {
             let cfg = SrvCfg { batch_size: bs, ..Default::default() };
             let fresh = |primed: bool| -> Result<Prober, String> {
@@ -189,11 +190,19 @@ pub fn run(ctx: &Ctx) -> Result<(), String> {
             for chunk in mine.chunks(group) {
                 let ds: Vec<Vec<u8>> = chunk.iter().map(|&i| build(&cases[i], i as u64)).collect();
                 let cls_: Vec<Client> = ds.iter().map(|_| Client::new()).collect();
+                let comp = Client::new();
+                let comp_req = rtref::responder::std_request(Version::Classic, &nonce(0xc12_8000_0000 + chunk[0] as u64, 64));
+                if companion == 1 {
+                    comp.send(p.srv.addr, &comp_req);
+                }
                 for (cl, d) in cls_.iter().zip(&ds) {
                     cl.send(p.srv.addr, d);
                 }
+                if companion == 2 {
+                    comp.send(p.srv.addr, &comp_req);
+                }
                 transitions.fetch_add(2 + ds.len() as u64, Relaxed);
-                let mode = json!({"batch_size": bs, "arriving_together": group, "after_full_batch_of_64": primed});
+                let mode = json!({"batch_size": bs, "arriving_together": group, "after_full_batch_of_64": primed, "classic_request_of_another_client_in_the_batch": (["no", "queued first", "queued last"][companion as usize])});
                 if let Err(pn) = p.srv.settle() {
                     ctx.violation("panic", "request-gate", &cases[chunk[0]].label, json!({"kind":"request-group","mode":mode,"datagrams":ds.iter().map(|d| hex(d)).collect::<Vec<_>>(),"panic":pn}));
                     p = match fresh(primed) {
@@ -209,7 +218,7 @@ pub fn run(ctx: &Ctx) -> Result<(), String> {
                     let c = &cases[i];
                     let got: Vec<Vec<u8>> = cl.drain().into_iter().map(|x| x.0).collect();
                     let exp = classify(d, &srv_ok);
-                    let label = if bs == 64 && !primed { c.label.clone() } else { format!("{}@bs{}{}", c.label, bs, if primed { "-after-full-batch" } else { "" }) };
+                    let label = if bs == 64 && !primed && companion == 0 { c.label.clone() } else { format!("{}@bs{}{}{}", c.label, bs, if primed { "-after-full-batch" } else { "" }, ["", "+classic-first", "+classic-last"][companion as usize]) };
                     let detail = |msg: String| json!({"kind":"request-group","mode":mode,"index_in_group":chunk.iter().position(|x| *x == i),"label":c.label,"ver":c.ver.as_ref().map(|v| hex(v)),"srv":c.srv.as_ref().map(|v| hex(v)),"datagrams":ds.iter().map(|d| hex(d)).collect::<Vec<_>>(),"message":msg});
                     let cls = match exp {
                         Expect::MustAnswer(_) => {
@@ -257,7 +266,7 @@ pub fn run(ctx: &Ctx) -> Result<(), String> {
     ctx.cov("traces_validated_against_impl", json!(cases.len() * MODES.len()));
     ctx.cov("evaluations", json!(cases.len() * MODES.len()));
     ctx.cov("distinct_nontrivial", json!(cases.len() * MODES.len()));
-    ctx.cov("server_states", json!(MODES.iter().map(|m| json!({"batch_size": m.0, "arriving_together": m.1, "after_full_batch_of_64": m.2})).collect::<Vec<_>>()));
+    ctx.cov("server_states", json!(MODES.iter().map(|m| json!({"batch_size": m.0, "arriving_together": m.1, "after_full_batch_of_64": m.2, "classic_companion": m.3})).collect::<Vec<_>>()));
     ctx.cov("truth_table_rows", json!(table_n));
     ctx.cov("outcome_classes", json!(cls));
     ctx.cov("exhaustive", json!(true));
@@ -274,6 +283,11 @@ pub fn replay_case(c: &Value) -> Result<Option<String>, String> {
         let ds: Vec<Vec<u8>> = c["datagrams"].as_array().ok_or("datagrams")?.iter().map(|h| crypto::unhex(h.as_str().unwrap_or(""))).collect();
         let bs = c["mode"]["batch_size"].as_u64().unwrap_or(64) as u8;
         let primed = c["mode"]["after_full_batch_of_64"].as_bool().unwrap_or(false);
+        let companion = match c["mode"]["classic_request_of_another_client_in_the_batch"].as_str() {
+            Some("queued first") => 1,
+            Some("queued last") => 2,
+            _ => 0,
+        };
         let lt_pk = crypto::public_key(&crate::inproc::DEFAULT_SEED);
         let srv_ok = crypto::srv_value(&lt_pk);
         return crate::util::on_named_thread("worker-0", move || {
@@ -284,8 +298,16 @@ pub fn replay_case(c: &Value) -> Result<Option<String>, String> {
             // the recorded group is replayed twice: state left behind by the first round meets the second
             for round in 0..2 {
                 let cls: Vec<Client> = ds.iter().map(|_| Client::new()).collect();
+                let comp = Client::new();
+                let comp_req = rtref::responder::std_request(Version::Classic, &nonce(0xc12_9000_0000 + round as u64, 64));
+                if companion == 1 {
+                    comp.send(p.srv.addr, &comp_req);
+                }
                 for (cl, d) in cls.iter().zip(&ds) {
                     cl.send(p.srv.addr, d);
+                }
+                if companion == 2 {
+                    comp.send(p.srv.addr, &comp_req);
                 }
                 if let Err(pn) = p.srv.settle() {
                     return Ok(Some(format!("panic {}", pn)));
